@@ -24,12 +24,12 @@ def T(name: str, k: str = "ok", n: int = 0, target: str = "", out: dict | None =
 
 
 def S(ref: str, req=(), tasks=None, join="AND", thr=0, cof=False, failp=True, mutex="", choice="",
-      parent="", owner="", enabled=None, ctx=None) -> dict:
+      parent="", owner="", enabled=None, ctx=None, region="") -> dict:
     if tasks is None:
         tasks = [T(f"{ref}.1")]
     return {"ref": ref, "req": sorted(req), "tasks": tasks, "join": join, "thr": thr, "cof": cof,
             "failp": failp, "mutex": mutex, "choice": choice, "parent": parent, "owner": owner,
-            "enabled": enabled, "ctx": ctx or {}}
+            "enabled": enabled, "ctx": ctx or {}, "region": region}
 
 
 def P(name: str, stages: list[dict], max_jumps: int = -1, **kw) -> dict:
@@ -102,6 +102,17 @@ def extra_family() -> list[dict]:
     return fam
 
 
+def region_family() -> list[dict]:
+    """programs with a cancel region (WCP-25): CancelRegion is injected by the drivers"""
+    fam = []
+    fam.append(P("regionpar", [S("a"), S("b", ["a"], region="r", tasks=[T("b.1"), T("b.2")]), S("c", ["a"], region="r"),
+                               S("d", ["a"], tasks=[T("d.1"), T("d.2")])]))
+    fam.append(P("regionlast", [S("a"), S("b", ["a"], region="r", tasks=[T("b.1"), T("b.2")])]))
+    fam.append(P("regionjoin", [S("a"), S("b", ["a"], region="r", tasks=[T("b.1"), T("b.2")]), S("c", ["a"]),
+                                S("e", ["b", "c"])]))
+    return fam
+
+
 def operator_family() -> list[dict]:
     """programs for the operator actions pause / unpause / restart"""
     fam = []
@@ -131,7 +142,7 @@ def control_family() -> list[dict]:
 
 def all_programs() -> list[dict]:
     return [with_outputs(p) for p in core_family() + extra_family() + control_family() + synthetic_family()
-            + operator_family()]
+            + operator_family() + region_family()]
 
 
 # ----------------------------------------------------------------------------------------------
@@ -176,6 +187,8 @@ def build_workflow(prog: dict):
             kw["mutex_key"] = sd["mutex"]
         if sd["choice"]:
             kw["deferred_choice_group"] = sd["choice"]
+        if sd.get("region"):
+            kw["cancel_region"] = sd["region"]
         st = StageExecution(ref_id=sd["ref"], type="verif", name=sd["ref"], context=ctx,
                             requisite_stage_ref_ids=set(sd["req"]), tasks=tasks, **kw)
         st.id = "S%03d-%s" % (i, sd["ref"])
@@ -309,6 +322,7 @@ def tla_program(prog: dict) -> dict:
         "cof": {s["ref"]: s["cof"] for s in st},
         "failp": {s["ref"]: s["failp"] for s in st},
         "mutex": {s["ref"]: s["mutex"] for s in st},
+        "region": {s["ref"]: s.get("region", "") for s in st},
         "choice": {s["ref"]: s["choice"] for s in st},
         "parent": {s["ref"]: s["parent"] for s in st},
         "owner": {s["ref"]: s["owner"] for s in st},
